@@ -41,6 +41,10 @@ pub fn slice_cfgs(seed: u64, constant: bool) -> Vec<RunCfg> {
         for b in 1..=64usize {
             v.push(RunCfg { name: format!("slice{}", b), sched: Sched::None, budgets: Some(vec![b]), prefix: false, live: false });
         }
+        // slices combined with collections at instruction boundaries (a slice end is a collection opportunity)
+        v.push(RunCfg { name: "slicegc1".into(), sched: Sched::Every(1), budgets: Some(vec![1]), prefix: false, live: false });
+        v.push(RunCfg { name: "slicegc2".into(), sched: Sched::Every(2), budgets: Some(vec![3]), prefix: false, live: false });
+        v.push(RunCfg { name: "slicegc3".into(), sched: Sched::Random(seed | 1, 300), budgets: Some(vec![7, 2]), prefix: false, live: false });
     } else {
         let mut rng = crate::rng::Rng::new(seed ^ 0x5151);
         for i in 0..6 {
